@@ -11,7 +11,7 @@ func init() {
 		DesignRef:   "DESIGN.md section 3, C14",
 		Exhaustive:  true,
 		Runs: []run{
-			{Test: "TestC14_Bearer", Quick: 15000, Thorough: 150000},
+			{Test: "TestC14_Bearer", Quick: 15000, Thorough: 1500000},
 			{Test: "TestC14_Enum"},
 		},
 	})
